@@ -30,7 +30,8 @@ enum { P_PATH_PROCESS, P_PATH_EVAL, P_PATH_PUTCHAR_IRQ, P_PATH_PUTCHAR_THR, P_FO
        P_QUOTED, P_LINE_79, P_EVAL_LONGER_THAN_RING, P_EVAL_MULTI_LINE, P_YIELDING_CMD, P_SLEEPING_CMD,
        P_INPUT_WHILE_CMD_RUNS, P_REGISTER_REFUSED, P_UNKNOWN_LINE, P_EMPTY_LINE, P_ARGS_JUDGED,
        P_LEADING_SPACE_LINE, P_FAILING_CMD, P_BUILTIN, P_CMD_DIRTIED_SCRATCH,
-       P_FINALE_QUEUE_EXACTLY_FULL, P_CONSOLE_IRQ_NESTED_IN_TICK, P_SECOND_CONSOLE };
+       P_FINALE_QUEUE_EXACTLY_FULL, P_CONSOLE_IRQ_NESTED_IN_TICK, P_SECOND_CONSOLE,
+       P_LONG_NAME, P_LONG_YIELD };
 static const char *const probe_names[] = {
 	"path_console_process", "path_console_eval", "path_putchar_irq", "path_putchar_thread",
 	"line_with_exactly_four_arguments", "tokeniser_stopped_at_four_arguments", "quoted_argument",
@@ -40,7 +41,8 @@ static const char *const probe_names[] = {
 	"failing_command_ran", "builtin_command_line", "command_stored_state_in_scratch",
 	"last_newline_followed_by_exactly_full_wakeup_queue",
 	"console_interrupt_nested_inside_another_source",
-	"second_console_instance_evaluating_concurrently", NULL };
+	"second_console_instance_evaluating_concurrently",
+	"line_naming_a_38_character_command_or_a_near_miss", "command_yielded_over_1000_times", NULL };
 
 /* ---- commands ---------------------------------------------------------------- */
 
@@ -53,7 +55,9 @@ typedef struct {
 
 #define NCMDS 36
 static tcmd_t cmds[NCMDS];
-static char names[NCMDS][8];
+static char names[NCMDS][48];
+static bool long_names;	/* two of the commands have 38/39-character names sharing their first 32 */
+#define LONG_STEM "measure_the_ambient_temperature_"
 static int n_registered;
 
 /* what the commands saw */
@@ -70,6 +74,7 @@ static int cmd_left;
 static uint32_t cmd_due;
 static bool use_fibre_timeout;
 static bool cmd_running;
+static bool allow_long_yield;	/* only where the real scheduler runs the console and nothing bounds the passes */
 
 /* a second, independent console instance (console_t is an instance type): what its commands saw */
 static console_t *con2;
@@ -115,7 +120,13 @@ static pt_state_t cmd_fn(console_t *c)
 	}
 	if (t->kind == K_YLD) {
 		sim_probe(P_YIELDING_CMD);
-		for (cmd_left = 1 + sim_choose(4); cmd_left > 0; cmd_left--)
+		cmd_left = 1 + sim_choose(4);
+		if (allow_long_yield && sim_chance(1, 30)) {
+			/* a command may keep yielding for as long as it likes */
+			cmd_left = 1001 + sim_choose(1500);
+			sim_probe(P_LONG_YIELD);
+		}
+		for (; cmd_left > 0; cmd_left--)
 			PT_YIELD();
 	} else if ((t->kind == K_BLK || t->kind == K_SLP) && !use_fibre_timeout) {
 		/* no scheduler: console_process / console_run resumes the command */
@@ -393,6 +404,12 @@ static void emit_name(void)
 		nm = "echo";
 	} else if (k == 7) {
 		nm = sim_choose(4) ? "nosuch" : "help";
+	} else if (k == 8 && long_names) {
+		/* the long names themselves, their common stem, and near misses */
+		static const char *const nearly[] = { LONG_STEM "celsius", LONG_STEM "kelvin", LONG_STEM, LONG_STEM "celsiu",
+						      LONG_STEM "kelvins", LONG_STEM "x" };
+		nm = nearly[sim_choose(6)];
+		sim_probe(P_LONG_NAME);
 	} else if (k == 8) {
 		nm = "ca";	/* prefix of a name */
 	} else {
@@ -489,6 +506,7 @@ static void gen_line(void)
 
 static void setup_commands(void)
 {
+	long_names = sim_chance(1, 4);
 	static const char *const special[] = { "cap", "yld", "blk", "slp", "fail" };
 	static const int kinds[] = { K_CAP, K_YLD, K_BLK, K_SLP, K_FAIL };
 	/* names sorting before, between and after the special ones (and the built-ins) */
@@ -497,6 +515,10 @@ static void setup_commands(void)
 					    "sz", "t", "u", "v", "w", "x", "y", "zz", "zzz" };
 	for (int i = 0; i < NCMDS; i++) {
 		const char *nm = i < 5 ? special[i] : fill[i - 5];
+		if (long_names && i == 20)
+			nm = LONG_STEM "celsius";
+		if (long_names && i == 21)
+			nm = LONG_STEM "kelvin";
 		snprintf(names[i], sizeof(names[i]), "%s", nm);
 		cmds[i].cmd.name = names[i];
 		cmds[i].cmd.fn = cmd_fn;
@@ -643,7 +665,7 @@ static bool start_second_console(void)
 {
 	int usable[NCMDS], nu = 0;
 	for (int i = 0; i < NCMDS; i++)
-		if (cmds[i].registered && (cmds[i].kind == K_FILL || cmds[i].kind == K_CAP))
+		if (cmds[i].registered && (cmds[i].kind == K_FILL || cmds[i].kind == K_CAP) && strlen(names[i]) <= 3)
 			usable[nu++] = i;
 	if (!nu)
 		return false;
@@ -684,6 +706,7 @@ static void path_eval(void)
 {
 	sim_probe(P_PATH_EVAL);
 	use_fibre_timeout = true;
+	allow_long_yield = true;
 	/* split the stream into 1..3 injected strings at line boundaries */
 	int pos = 0;
 	inj2.active = false;
@@ -713,7 +736,7 @@ static void path_eval(void)
 		if (want_second && !inj2.active && (sim_choose(2) || end == stream_len))
 			start_second_console();
 		int passes = 0;
-		int budget = 40 * (end - pos) + 400 + (inj2.active ? 40 * 400 : 0);
+		int budget = 40 * (end - pos) + 400 + (inj2.active ? 40 * 400 : 0) + 3000 * seen;
 		while (passes++ < budget) {
 			sim_budget(4000000);
 			uint32_t wake = fibre_scheduler_next(now);
@@ -760,6 +783,7 @@ static void run(void)
 {
 	reset_model();
 	con2 = NULL;
+	allow_long_yield = false;
 	now = sim_choose(2) ? 0xfffffff0u : 1000;
 	sim_clock = now;
 	setup_commands();
@@ -991,6 +1015,7 @@ static void run(void)
 	bool races = sim_prop_is("C07");
 	reset_model();
 	con2 = NULL;
+	allow_long_yield = false;
 	mode = races ? M_THR : sim_choose(3) ? M_IRQ : M_THR;
 	now = sim_choose(2) ? 0xfffffff0u : 1000;
 	sim_clock = now;
